@@ -150,6 +150,9 @@ type Options struct {
 	StopOnFinding bool
 	// Params are harness parameters (vx.Param).
 	Params map[string]string
+	// Fixed, when non-nil, pins every labelled input to a recorded value
+	// (concrete re-execution of a counterexample inside the engine).
+	Fixed map[string][]uint64
 }
 
 // solver kinds: [fast?][nonlinear?]
@@ -571,6 +574,22 @@ func (m *Machine) fresh(prefix string, w int) *smt.Term {
 func (m *Machine) input(label, kind string, n, w int) []*smt.Term {
 	label = m.uniqueLabel(sanitize(label))
 	ts := make([]*smt.Term, n)
+	if fx := m.E.Opt.Fixed; fx != nil {
+		vals := fx[label]
+		for i := range ts {
+			var v uint64
+			if i < len(vals) {
+				v = vals[i]
+			}
+			if w == 0 {
+				ts[i] = m.C.Bool(v != 0)
+			} else {
+				ts[i] = m.C.Const(v, w)
+			}
+		}
+		m.inputs = append(m.inputs, inputRec{label: label, kind: kind, terms: ts, w: w})
+		return ts
+	}
 	for i := range ts {
 		name := fmt.Sprintf("in!%s!w%d", label, w)
 		if kind == "bytes" || kind == "string" {
